@@ -5,7 +5,7 @@
    duplicates, tag 42 only and only around 0x00 + valid CID, ints in [-2^63, 2^64)), tolerating
    only unsorted keys, 16/32-bit floats and undefined-as-null. *)
 Require Import IP.Base.Bytes IP.DM.Value IP.Codec.Cbor IP.Codec.CborSpec.
-Require Import IP.Proofs.CborDec IP.Proofs.CborSound IP.Proofs.CborBound.
+Require Import IP.Proofs.CborDec IP.Proofs.CborSound IP.Proofs.CborBound IP.Proofs.CborComplete.
 Open Scope N_scope.
 
 (* The full statement: acceptance implies the strict SPEC with NO tolerance for refmt's wrap. *)
@@ -60,3 +60,37 @@ Example C03_accepts_something :
   let bs := [162; 97; 97; 249; 60; 0; 97; 98; 216; 42; 69; 0; 1; 113; 0; 0] in
   wfb bs /\ exists v, decode (dagcbor_dopts true) bs = Ok (v, []).
 Proof. cbv zeta. split; [repeat constructor|]. eexists. vm_compute. reflexivity. Qed.
+Print Assumptions C03_accepts_something.
+
+(* ---- the converse: the SPEC and the limits are all the decoder asks.  [lim_ok v]: strings, bytes, keys and
+   links within 32 MiB, collection lengths within Go's int, no NaN (its payload is not compared by chk). ---- *)
+Theorem C03_complete : forall o bs v rest, d_reject_tags o = true -> wfb bs ->
+  chk (negb (d_relaxed o)) (d_allow_links o) true v bs = Some rest -> lim_ok v ->
+  (Z.of_nat (dm_depth v) <= max_depth o)%Z -> (cost v <= budget0 o)%Z ->
+  (d_dont_parse_beyond o = false -> rest = []) ->
+  decode o bs = Ok (v, rest).
+Proof. exact decode_complete. Qed.
+Print Assumptions C03_complete.
+
+(* "denotes exactly the bytes it accepts", from both sides: in strict mode on the repaired tree the decoder
+   accepts bs with (v, rest) exactly when a prefix of bs is one well-formed item denoting v, v is within the
+   configured limits, and nothing is left unless stop-at-end was asked *)
+Theorem C03_decode_iff : forall o bs v rest,
+  d_reject_tags o = true -> d_relaxed o = false -> (0 <= budget0 o)%Z -> wfb bs ->
+  (decode o bs = Ok (v, rest) <->
+   chk true (d_allow_links o) true v bs = Some rest /\ lim_ok v /\
+   (Z.of_nat (dm_depth v) <= max_depth o)%Z /\ (cost v <= budget0 o)%Z /\
+   (d_dont_parse_beyond o = false -> rest = [])).
+Proof. exact decode_iff. Qed.
+Print Assumptions C03_decode_iff.
+
+(* non-vacuity of the converse: a non-canonical input (keys out of order, a 16-bit float, a longer-than-needed
+   form is NOT used since strict) meets every premise of C03_complete and is accepted with that value *)
+Example C03_complete_example :
+  let bs := [162; 97; 98; 249; 60; 0; 97; 97; 130; 246; 33] in
+  let v := DMap [([98], DFloat 4607182418800017408); ([97], DList [DNull; DInt (-2)])] in
+  wfb bs /\ chk true true true v bs = Some [] /\ lim_ok v /\
+  decode (dagcbor_dopts true) bs = Ok (v, []).
+Proof. cbv zeta. split; [repeat constructor|]. split; [vm_compute; reflexivity|]. split; [|vm_compute; reflexivity].
+  cbn. unfold two63, str_cap. repeat split; try lia. Qed.
+Print Assumptions C03_complete_example.
